@@ -836,12 +836,38 @@ def rule_sweep_chord(chk, prog):
     (r.bad if bad else r.ok)("chord test after the sweep's verdict", fn.loc(ch[0]) if ch else fn.where(), bad or "")
 
 
+def rule_enclosing_ignored(chk, prog):
+    from ..sibling.mirror import mirror_blocks_equal
+    r = chk.rule("ENCLOSING-SHAPES-IGNORED", "EdgeInf::firstBlocker leaves out the shapes that enclose EITHER end of the edge when that end is a connector "
+                 "end point: the two statements (for m_vert1 and for m_vert2) are mirror images and neither depends on the other -- with an "
+                 "`else`, an edge from an end point inside a shape to an end point inside another shape stays `blocked` by the second shape", floor=1)
+    fn = prog.fn("Avoid::EdgeInf::firstBlocker")
+    blocks = {}
+    for n in fn.nodes():
+        if n.get("k") == "IfStmt" and norm(n["cond"]) in ("iID.isConnPt()", "jID.isConnPt()"):
+            if any("::insert" in str(c.get("cname", "")) and norm(call_object(c)) == "ss" for c in walk(n.get("then") or {}) if c.get("k") == "CXXMemberCallExpr"):
+                blocks[norm(n["cond"])[0]] = n
+    r.count()
+    if set(blocks) != {"i", "j"}:
+        raise AnalysisBroken("firstBlocker: the two `enclosing shapes` statements were not found")
+    bad = None
+    for nm, n in blocks.items():
+        other = "jID.isConnPt()" if nm == "i" else "iID.isConnPt()"
+        if other in atoms(path_condition(fn, n["then"], inline=False)):
+            bad = bad or "the shapes enclosing end %s are ignored only when the other end is not a connector end point" % nm
+    ok, where = mirror_blocks_equal(blocks["i"]["then"], blocks["j"]["then"], "i/j")
+    if not ok:
+        bad = bad or "the two statements are not mirror images: ...%s... vs ...%s..." % (where[0][-60:], where[1][-60:])
+    (r.bad if bad else r.ok)("firstBlocker", fn.loc(blocks["j"]), bad or "")
+
+
 def run(chk):
     prog = chk.load()
     chk.guard(rule_callers, chk, prog)
     chk.guard(rule_vis_guard, chk, prog)
     chk.guard(rule_blocking_scan, chk, prog)
     chk.guard(rule_first_blocker, chk, prog)
+    chk.guard(rule_enclosing_ignored, chk, prog)
     chk.guard(rule_fallback, chk, prog)
     chk.guard(rule_endpoints, chk, prog)
     chk.guard(rule_contains, chk, prog)
